@@ -173,8 +173,16 @@ func system(rec *mon.Recorder, c int) {
 	if repl >= 2 && nodes >= 2 {
 		slowNode = uint64(1 + c%nodes)
 		cl.OnEvent = func(n *sim.Node, g uuid.UUID, point string, args ...interface{}) {
-			if point == "ready" && n.Id == atomic.LoadUint64(&slowNode) && !uuid.Equal(g, uuid.Nil) {
+			if n.Id != atomic.LoadUint64(&slowNode) || uuid.Equal(g, uuid.Nil) {
+				return
+			}
+			switch point {
+			case "ready":
 				time.Sleep(15 * time.Millisecond)
+			case "beforeSave":
+				// as a leader it has sent the Ready's messages (which carry the new commit index) by now and has not
+				// saved or applied yet: the followers may apply, and answer their callers, before it does
+				time.Sleep(6 * time.Millisecond)
 			}
 		}
 		rec.Count("cases_with_a_replica_that_applies_late", 1)
